@@ -147,7 +147,9 @@ theorem build_nextFrag_le {m m' : Manifest} {t : Txn} (h : build m t = .ok m') :
     simp only [build] at h
     split at h
     · cases h
-    · cases h; simp
+    · split at h
+      · cases h
+      · cases h; simp
   | reserve n => simp [build] at h; subst h; simp
 
 /-- FRAME: an old fragment id that survives a transaction which does not touch its `F` columns has the same `F` cells -/
@@ -195,17 +197,19 @@ theorem build_frame {m m' : Manifest} {t : Txn} (F : List Nat) (f : Nat) (h : bu
     split at h
     · cases h
     · rename_i g0 hg0
-      cases h
-      simp only at hg'
-      split at hg'
-      · rename_i hff
-        cases hg'
-        subst hff
-        refine ⟨g0, hg0, ?_⟩
-        unfold cols
-        simp only
-        exact (map_proj_applyPatch F p (fun c hc hcF => hnt ⟨rfl, c, hc, hcF⟩) g0.rows).symm
-      · exact ⟨g', hg', rfl⟩
+      split at h
+      · cases h
+      · cases h
+        simp only at hg'
+        split at hg'
+        · rename_i hff
+          cases hg'
+          subst hff
+          refine ⟨g0, hg0, ?_⟩
+          unfold cols
+          simp only
+          exact (map_proj_applyPatch F p (fun c hc hcF => hnt ⟨rfl, c, hc, hcF⟩) g0.rows).symm
+        · exact ⟨g', hg', rfl⟩
   | reserve n =>
     simp [build] at h; subst h
     exact ⟨g', hg', rfl⟩
